@@ -108,6 +108,11 @@ def make_server(log, auth_verdict=0, tls_immediately=False):
         def handle_rcpt(self, reply, rcpt, params):
             log.append({'t': 'cb', 'name': 'RCPT', 'evil': 'evil' in rcpt, 'enc': bool(self.session.security)})
 
+        def handle_ehlo(self, reply, ehlo_as):
+            if ehlo_as.startswith('refused'):           # the application does not like this client's name
+                reply.code = '550'
+                reply.message = '5.7.1 scripted refusal'
+
         def handle_auth(self, reply, creds):
             state['creds'] = creds
             ok = False
@@ -209,7 +214,10 @@ def auth_case(mech, shape, tls, state_kind, verdict):
         peer.send(b'STARTTLS\r\n')
         peer.reply()
         peer.starttls()
-    if state_kind != 'pre_ehlo':
+    if state_kind == 'ehlo_refused':
+        peer.send(b'EHLO refused.example\r\n')        # answered 550 by the application: no EHLO has been accepted
+        peer.reply()
+    elif state_kind != 'pre_ehlo':
         peer.send(b'EHLO c.example\r\n')
         peer.reply()
     if state_kind == 'in_trans':
@@ -363,7 +371,8 @@ def client_case(injected):
         buf = b''
         while b'\n' not in buf:
             buf += b.recv(100)          # EHLO
-        b.sendall(b'250-me\r\n250 STARTTLS\r\n')
+        # (what is offered in clear text - AUTH, a SIZE limit - is not offered inside the TLS session)
+        b.sendall(b'250-me\r\n250-AUTH PLAIN LOGIN\r\n250-SIZE 10\r\n250 STARTTLS\r\n')
         buf = b''
         while b'\n' not in buf:
             buf += b.recv(100)          # STARTTLS
@@ -375,7 +384,7 @@ def client_case(injected):
             if not d:
                 return
             buf += d
-        tls.sendall(b'250 REAL-REPLY\r\n')
+        tls.sendall(b'250-REAL-REPLY\r\n250 8BITMIME\r\n')
         gevent.sleep(0.2)
     g = gevent.spawn(peer)
     c = Client(a, ('localhost', 25))
@@ -386,10 +395,11 @@ def client_case(injected):
             r = c.starttls(cli_ctx())
             log.append({'t': 'client_tls', 'code': int(r.code), 'enc': bool(c.io.encrypted)})
             r2 = c.ehlo('x')
+            have = sorted(c.extensions.extensions.keys())
             log.append({'t': 'client_after', 'real': 'REAL-REPLY' in (r2.message or ''), 'code': int(r2.code or 0),
-                        'injected': len(injected)})
+                        'injected': len(injected), 'ext_ok': have == ['8BITMIME']})
     except BaseException as e:  # noqa
-        log.append({'t': 'client_after', 'real': False, 'code': 0, 'injected': len(injected), 'exc': type(e).__name__})
+        log.append({'t': 'client_after', 'real': False, 'code': 0, 'injected': len(injected), 'exc': type(e).__name__, 'ext_ok': False})
     g.kill()
     return log
 
@@ -417,7 +427,7 @@ def main():
             for shape in ('initial', 'challenge', 'cancel', 'badb64', 'empty', 'nonutf8'):
                 jobs.append(('auth', mech, shape, tls, 'ok', 0))
             jobs.append(('auth', mech, 'initial', tls, 'ok', 535))
-            for st in ('pre_ehlo', 'in_trans', 'after_auth', 'after_auth_ehlo', 'after_auth_anon'):
+            for st in ('pre_ehlo', 'ehlo_refused', 'in_trans', 'after_auth', 'after_auth_ehlo', 'after_auth_anon'):
                 jobs.append(('auth', mech, 'initial', tls, st, 0))
             for st in ('ok_after_cancel', 'ok_after_badb64', 'ok_after_wrong'):
                 for shape in ('initial', 'challenge'):
